@@ -36,9 +36,13 @@ pub type ParseResult<T> = Result<T, ParserError>;
 
 /// Main parser implementation.
 /// Uses a pratt parsing approach to parse sql expressions into AST nodes.
+/// Deepest expression tree the parser accepts (see [`Parser::parse_expr_bp`]).
+const MAX_EXPRESSION_DEPTH: usize = 256;
+
 pub struct Parser {
     lexer: Lexer,
     current_token: Token,
+    expr_depth: usize,
 }
 
 impl Parser {
@@ -48,6 +52,7 @@ impl Parser {
         Parser {
             lexer,
             current_token,
+            expr_depth: 0,
         }
     }
 
@@ -94,6 +99,28 @@ impl Parser {
     /// Obtains the expression binding power using a Pratt Parsing approach.
     /// I recommend this read on Pratt Parsing: https://matklad.github.io/2020/04/13/simple-but-powerful-pratt-parsing.html
     fn parse_expr_bp(&mut self, min_bp: u8) -> ParseResult<Expr> {
+        // Every nested sub-expression and every operator of a chain makes the tree one level
+        // deeper, and the binder, the optimizer and the evaluator recurse over it: refuse
+        // expressions deeper than [`MAX_EXPRESSION_DEPTH`] instead of overflowing the stack of the
+        // worker thread (which takes the whole process down).
+        let entered_at = self.expr_depth;
+        let result = self.parse_expr_bp_bounded(min_bp);
+        self.expr_depth = entered_at;
+        result
+    }
+
+    fn deepen(&mut self) -> ParseResult<()> {
+        self.expr_depth += 1;
+        if self.expr_depth > MAX_EXPRESSION_DEPTH {
+            return Err(ParserError::InvalidExpression(format!(
+                "expression nested deeper than {MAX_EXPRESSION_DEPTH} levels"
+            )));
+        }
+        Ok(())
+    }
+
+    fn parse_expr_bp_bounded(&mut self, min_bp: u8) -> ParseResult<Expr> {
+        self.deepen()?;
         let mut lhs = self.parse_prefix()?;
 
         while let Some((l_bp, r_bp)) = self.infix_binding_power() {
@@ -101,6 +128,7 @@ impl Parser {
                 break;
             }
 
+            self.deepen()?;
             lhs = self.parse_infix(lhs, r_bp)?;
         }
 
